@@ -7,6 +7,6 @@ open Chf.DiamClient
 def abmfClient : Cfg := ⟨true, true, true, true, 5000, false, true, 0⟩
 
 /-- internal/rating/rating.go: SendServiceUsageRequest / HandleSUA; internal/context: the sm.Client in field "RatingClient" -/
-def ratingClient : Cfg := ⟨true, true, true, true, 5000, false, false, 2000⟩
+def ratingClient : Cfg := ⟨true, true, true, true, 5000, false, true, 0⟩
 
 end Chf.Gen
